@@ -107,6 +107,10 @@ func c19dNew(cfg []string) (*c19dEnv, error) {
 	if pipeline < 1 {
 		return nil, fmt.Errorf("pipeline")
 	}
+	opipeline, _ := strconv.Atoi(kv["opipeline"])
+	if opipeline < 1 {
+		opipeline = pipeline + 1
+	}
 	dg, err := core.NewDigester().FromBytes(blob)
 	if err != nil {
 		return nil, err
@@ -129,7 +133,7 @@ func c19dNew(cfg []string) (*c19dEnv, error) {
 	clk := clock.NewMock()
 	clk.Set(time.Unix(1700000000, 0))
 	d, err := newDispatcher(
-		Config{DisableEndgame: true, AgentPipelineLimit: pipeline, OriginPipelineLimit: pipeline + 1,
+		Config{DisableEndgame: true, AgentPipelineLimit: pipeline, OriginPipelineLimit: opipeline,
 			PieceRequestMinTimeout: 4 * time.Second, PieceRequestTimeoutPerMb: time.Millisecond},
 		tally.NoopScope, clk, networkevent.NewTestProducer(), c19dEvents{}, core.PeerIDFixture(), t,
 		zap.NewNop().Sugar(), torrentlog.NewNopLogger())
@@ -292,7 +296,10 @@ func TestVerif_C19Dispatch(t *testing.T) {
 		np := 1 + r.Intn(5)
 		blob := r.Bytes(pl*(np-1) + 1 + r.Intn(pl))
 		npeers := 1 + r.Intn(4)
-		cfg := []string{fmt.Sprintf("pl=%d", pl), "blob=" + verifh.Hex(blob), fmt.Sprintf("pipeline=%d", 1+r.Intn(3))}
+		pipeline := 1 + r.Intn(3)
+		opipeline := []int{1, pipeline, pipeline + 1}[r.Intn(3)]
+		cfg := []string{fmt.Sprintf("pl=%d", pl), "blob=" + verifh.Hex(blob), fmt.Sprintf("pipeline=%d", pipeline),
+			fmt.Sprintf("opipeline=%d", opipeline)}
 		var ops [][]string
 		var names []string
 		for k := 0; k < npeers; k++ {
